@@ -221,11 +221,12 @@ UNINIT = UninitT()
 
 
 class FnV(V):
-    __slots__ = ("fn", "resolved", "_h")
+    __slots__ = ("fn", "resolved", "gargs", "_h")
 
-    def __init__(self, fn, resolved):
+    def __init__(self, fn, resolved, gargs=None):
         self.fn = fn
         self.resolved = resolved
+        self.gargs = gargs or []
         self._h = hash(("F", fn["did"]))
 
     def __eq__(self, o):
